@@ -11,6 +11,7 @@
 
 static struct struct_ext2_filsys vf_fs;
 
+#ifndef VF_CUSTOM_NEW
 static ext2fs_generic_bitmap vf_new(__u64 end, __u64 real_end)
 {
 	ext2fs_generic_bitmap bm = 0;
@@ -21,6 +22,7 @@ static ext2fs_generic_bitmap vf_new(__u64 end, __u64 real_end)
 	ASSUME(rc == 0 && bm != 0);
 	return bm;
 }
+#endif
 
 int main(void)
 {
@@ -93,8 +95,10 @@ int main(void)
 		ret = ext2fs_test_block_bitmap_range2(bm, block, num);
 		if (valid)
 			PROP(ret == allclear, "test_range: 1 iff every bit of the range is clear");
+#ifndef LEGACY32	/* the 32-bit implementation only warns on an invalid range; its answer is unspecified */
 		else
 			PROP(ret == EINVAL, "test_range: out-of-range request is refused");
+#endif
 #endif
 	}
 #elif OP == OP_SET_RANGE || OP == OP_GET_RANGE
@@ -222,6 +226,10 @@ int main(void)
 #elif OP == OP_FUDGE_END
 	{
 		__u64 ne = IN.a, oend = ~0ULL;
+#ifdef LEGACY32
+		/* ASSUME: 32-bit bitmaps take 32-bit positions */
+		ASSUME(ne < (1ULL << 32));
+#endif
 		rc = ext2fs_fudge_generic_bmap_end(bm, 777, ne, &oend);
 		if (ne > REAL_END)
 			PROP(rc == 777 && ext2fs_get_generic_bmap_end(bm) == end, "fudge_end beyond real_end refused");
